@@ -36,7 +36,7 @@
 
 enum { K_LOCK = 1, K_UNLOCK, K_WAIT, K_WAKE, K_SIGNAL, K_BCAST, K_ENQ, K_DEQ, K_RUN, K_DONE, K_DISCARD, K_CALL,
        K_RET, K_SPAWN, K_EXIT, K_JOIN, K_FREE, K_NKIND };
-enum { T_WORKER0 = 0, T_SUB0 = 10, T_SHUT = 20, T_OVF0 = 30, T_MAX = 64 };
+enum { T_WORKER0 = 0, T_SUB0 = 10, T_SHUT = 20, T_OVF0 = 30, T_MAX = 1024 };
 
 #define MAXEV   400000
 #define MAXTASK 2048
@@ -207,6 +207,8 @@ static int hx_wait(pthread_cond_t *c, pthread_mutex_t *m) {
 static int hx_signal(pthread_cond_t *c) { lgw(K_SIGNAL, cond_id(c), 0, 0); return pthread_cond_signal(c); }
 static int hx_broadcast(pthread_cond_t *c) { lgw(K_BCAST, cond_id(c), 0, 0); return pthread_cond_broadcast(c); }
 static int hx_nop(void *p) { (void) p; return 0; }
+// pthread_detach(self) of an overflow thread: the harness joins every thread itself at the end of the scenario
+static int hx_detach(pthread_t t) { (void) t; return 0; }
 
 typedef struct { void*(*fn)(void*); void *arg; int id; } tramp;
 static struct { pthread_t t; int id; int joined; } THR[T_MAX];
@@ -274,6 +276,7 @@ static void hx_free(void *p) {
 #define pthread_cond_destroy(c)    hx_nop(c)
 #define pthread_create(a, b, c, d) hx_create(a, b, c, d)
 #define pthread_join(a, b)         hx_join(a, b)
+#define pthread_detach(t)          hx_detach(t)
 #define free(p)                    hx_free(p)
 
 #define _task      stw_task
@@ -296,6 +299,7 @@ static void hx_free(void *p) {
 #undef pthread_cond_destroy
 #undef pthread_create
 #undef pthread_join
+#undef pthread_detach
 #undef free
 
 static struct iwstw *g_stw;
@@ -529,7 +533,7 @@ static void run_scenario(char *line) {
   atomic_store(&scen_start, (long) time(0));
   atomic_store(&scen_active, 1);
   // start the executor (its own events are not part of the modelled run)
-  my_tid = 63; quiet = 1;
+  my_tid = T_MAX - 1; quiet = 1;
   iwrc rc;
   if (P.tp) {
     rc = iwtp_start_by_spec(&(struct iwtp_spec) { .num_threads = P.nthreads, .queue_limit = P.lim,
